@@ -490,6 +490,10 @@ func c02OneRun(t *testing.T, rep *vfReport, seedSalt uint64, nNodes, nClients, n
 	rep.Sample(map[string]interface{}{"nodes": nNodes, "clients": nClients, "faults": flog, "ops": len(ops), "acked_writes": nW, "unknown_writes": nU, "strong_reads": nS, "linearizable_reads": nL})
 	order, ok, steps := c02Linearize(ops, keys)
 	rep.CountN("search-steps", steps)
+	if !ok && steps > 20000000 {
+		// the search gave up: that is a limit of the harness, not a verdict on the history
+		t.Fatalf("C02 harness: linearization search exceeded its step budget on a history of %d operations", len(ops))
+	}
 	if !ok {
 		rep.Fail("history-not-linearizable", fmt.Sprintf("no linearization order exists for the recorded history of %d operations (%d acked writes, %d unknown, %d strong reads, %d linearizable reads) under faults %v", len(ops), nW, nU, nS, nL, flog),
 			map[string]interface{}{"faults": flog, "history": c02Describe(ops), "model_ops": c02Lines(ops)})
